@@ -38,18 +38,16 @@ Qed.
 (* ------------------------------------------------------------------ results *)
 Definition ang (i : Z) : R := IZR i * PI / 12.
 
-(* inverse functions: the valuation gives F^-1(a) a value whose image under F is av a *)
-Definition inv_ok (kv av : expr -> R) : Prop :=
-  forall f a, F f (kv (EF1 (inv_direct f) a)) = av a
-              /\ F f (kv (EF1 (inv_recip f) a)) = 1 / av a.
-
-(* [res_ok v t]: the result t has the value v.  A table result stands for f(i*pi/12); index -1
-   ("no table", never reached with a zero argument) is excluded. *)
+(* [res_ok v t]: the result t has the value v.
+   - a table result stands for g(i*pi/12); index -1 ("no table", never reached with a zero
+     argument) is excluded;
+   - f(F^-1(a)) -> a and f(G^-1(a)) -> 1/a are right at the points where the inverse-function
+     atom denotes a preimage: F g (value of g^-1(a)) = value of a  (over R: inside the domain). *)
 Definition res_ok (kv av : expr -> R) (v : R) (t : tres) : Prop :=
   match t with
   | RVal z => IZR z = v
-  | RArg s a => IZR s * av a = v
-  | RRecip s a => IZR s * (1 / av a) = v
+  | RArg s g a => F g (kv (EF1 (inv_direct g) a)) = av a -> IZR s * av a = v
+  | RRecip s g a => F g (kv (EF1 (inv_recip g) a)) = 1 / av a -> IZR s * (1 / av a) = v
   | RTab s g i => (0 <= i)%Z -> IZR s * F g (ang i) = v
   | RFun s g l => IZR s * F g (lin_den kv l) = v
   | RUninit | RNumeric | RUnsupported | RFuel => True
@@ -58,7 +56,6 @@ Definition res_ok (kv av : expr -> R) (v : R) (t : tres) : Prop :=
 Section Ctor.
   Variable kv av : expr -> R.
   Hypothesis Hkv : kv_ok kv.
-  Hypothesis Hinv : inv_ok kv av.
 
   Definition rec_ok (rec : trigfn -> Z -> lin -> tres) : Prop :=
     forall f sg arg, lin_real arg = true ->
@@ -115,9 +112,9 @@ Section Ctor.
     destruct (as_f1 arg) as [[code a]|] eqn:Ha; [ | apply ctor_go_sound; assumption ].
     rewrite (as_f1_den _ _ _ Ha).
     destruct (code =? inv_direct f)%N eqn:H1.
-    - apply N.eqb_eq in H1. subst code. cbn [res_ok]. destruct (Hinv f a) as [E _]. rewrite E. reflexivity.
+    - apply N.eqb_eq in H1. subst code. cbn [res_ok]. intros E. rewrite E. reflexivity.
     - destruct (code =? inv_recip f)%N eqn:H2.
-      + apply N.eqb_eq in H2. subst code. cbn [res_ok]. destruct (Hinv f a) as [_ E]. rewrite E. reflexivity.
+      + apply N.eqb_eq in H2. subst code. cbn [res_ok]. intros E. rewrite E. reflexivity.
       + rewrite <- (as_f1_den _ _ _ Ha). apply ctor_go_sound; assumption.
   Qed.
 
